@@ -67,6 +67,9 @@ type Server struct {
 	RequireAuth bool              // answer 401 to unauthenticated API requests (users come from Basic auth)
 	NoVerify    bool              // do not offer verify actions
 	ActionHdr   map[string]string // extra headers attached to every offered action
+	Staging     bool              // uploads go to a staging area; a successful verify call commits them to the store
+	FailVerify  bool              // every verify call is answered 500
+	staged      map[string][]byte
 	UploadHdr   map[string]string // extra headers attached to upload actions only (e.g. a Content-Type for the PUT)
 	ExpiresIn   int               // expires_in for actions (0: none)
 	PageSize    int               // lock list page size (0: unlimited)
@@ -227,6 +230,9 @@ func classify(method, path string) (kind, repo, rest string) {
 	return
 }
 
+// DropStaged forgets uploads that were never verified.
+func (s *Server) DropStaged() { s.mu.Lock(); s.staged = nil; s.mu.Unlock() }
+
 func (s *Server) handle(w http.ResponseWriter, r *http.Request) {
 	body, _ := io.ReadAll(r.Body)
 	kind, repo, rest := classify(r.Method, r.URL.Path)
@@ -291,7 +297,14 @@ func (s *Server) handle(w http.ResponseWriter, r *http.Request) {
 			}
 		}
 		s.mu.Lock()
-		s.Repo(repo).Objects[rest] = body
+		if s.Staging {
+			if s.staged == nil {
+				s.staged = map[string][]byte{}
+			}
+			s.staged[repo+"/"+rest] = body
+		} else {
+			s.Repo(repo).Objects[rest] = body
+		}
 		s.mu.Unlock()
 		rec.WriteHeader(200)
 	case "verify":
@@ -300,7 +313,17 @@ func (s *Server) handle(w http.ResponseWriter, r *http.Request) {
 			Size int64  `json:"size"`
 		}
 		json.Unmarshal(body, &v)
+		if s.FailVerify {
+			rec.Header().Set("Content-Type", "application/vnd.git-lfs+json")
+			rec.WriteHeader(500)
+			rec.Write([]byte(`{"message":"verification backend down"}`))
+			return
+		}
 		s.mu.Lock()
+		if sb, staged := s.staged[repo+"/"+v.Oid]; staged {
+			s.Repo(repo).Objects[v.Oid] = sb
+			delete(s.staged, repo+"/"+v.Oid)
+		}
 		b, ok := s.Repo(repo).Objects[v.Oid]
 		s.mu.Unlock()
 		if !ok || int64(len(b)) != v.Size {
